@@ -37,9 +37,9 @@ func init() {
 	ds("ds_write_b96", "dswrite", 12, false, 0, "A32,S96")
 	ds("ds_write_b128", "dswrite", 16, false, 0, "A32,S128")
 	ds("ds_write2_b32", "dswrite2", 4, false, 4, "A32,S32,S32")
-	ds("ds_write2st64_b32", "dswrite2", 4, false, 4 * 64, "A32,S32,S32")
+	ds("ds_write2st64_b32", "dswrite2", 4, false, 4*64, "A32,S32,S32")
 	ds("ds_write2_b64", "dswrite2", 8, false, 8, "A32,S64,S64")
-	ds("ds_write2st64_b64", "dswrite2", 8, false, 8 * 64, "A32,S64,S64")
+	ds("ds_write2st64_b64", "dswrite2", 8, false, 8*64, "A32,S64,S64")
 	ds("ds_read_u8", "dsread", 1, false, 0, "D32,A32")
 	ds("ds_read_i8", "dsread", 1, true, 0, "D32,A32")
 	ds("ds_read_u16", "dsread", 2, false, 0, "D32,A32")
@@ -49,9 +49,9 @@ func init() {
 	ds("ds_read_b96", "dsread", 12, false, 0, "D96,A32")
 	ds("ds_read_b128", "dsread", 16, false, 0, "D128,A32")
 	ds("ds_read2_b32", "dsread2", 4, false, 4, "D64,A32")
-	ds("ds_read2st64_b32", "dsread2", 4, false, 4 * 64, "D64,A32")
+	ds("ds_read2st64_b32", "dsread2", 4, false, 4*64, "D64,A32")
 	ds("ds_read2_b64", "dsread2", 8, false, 8, "D128,A32")
-	ds("ds_read2st64_b64", "dsread2", 8, false, 8 * 64, "D128,A32")
+	ds("ds_read2st64_b64", "dsread2", 8, false, 8*64, "D128,A32")
 	// FLAT 13-63, 12-? : per-lane 64-bit address in a VGPR pair
 	fl := func(n, kind string, bytes int, signed bool, p string) {
 		memEntry(n, "FLAT", CFLAT, p, "13-63", MemOp{Kind: kind, Bytes: bytes, Signed: signed})
